@@ -14,6 +14,8 @@ CONSTANTS
     MaxFaults = 2
     MaxCrashes = 1
     MaxReopens = 0
+    MaxFmtFail = 0
+    FmtFails = {}
     Ticks = {"same", "next"}
     RetryTicks = {"same"}
     Phantoms = {0}
